@@ -57,7 +57,7 @@ type behaviour struct {
 	Syncs []msync `json:"syncs"`
 }
 
-var bodyKinds = map[string]bool{"bitflip": true, "truncated": true, "appended": true, "other": true, "empty": true, "oversized": true}
+var bodyKinds = map[string]bool{"bitflip": true, "truncated": true, "appended": true, "other": true, "empty": true, "oversized": true, "shortwrite": true}
 
 // digest specifications for the chain's CIDs (C02: every multihash function and digest length)
 var prefixes = []struct {
@@ -256,7 +256,7 @@ func replay(b *behaviour, e *env, variant int) (key, detail string, at int, obs 
 		switch {
 		case len(ob.Audit) != 0:
 			return "store-holds-unverified-block", fmt.Sprintf("sync %d: stored blocks that do not hash to their CID: %v", i+1, ob.Audit), i, obs
-		case ob.Result == "ok" && want.Result == "error" && f != nil && (f.Kind == "reset" || f.Kind == "shortwrite") && repeated(ob.Paths):
+		case ob.Result == "ok" && want.Result == "error" && f != nil && f.Kind == "reset" && repeated(ob.Paths):
 			// net/http transparently repeats an idempotent request whose connection broke: the fault never reached the library
 			return "", "tolerated:transport-retried-request", i, obs
 		case ob.Result != want.Result:
